@@ -24,21 +24,40 @@ def _limits():
     resource.setrlimit(resource.RLIMIT_AS, (MEM_LIMIT, MEM_LIMIT))
 
 
+def kill_group(p):
+    """cbmc starts the external SMT solver as a child: kill the whole
+    process group, or orphaned cvc5 processes keep burning CPU."""
+    import signal
+    try:
+        os.killpg(os.getpgid(p.pid), signal.SIGKILL)
+    except Exception:
+        try:
+            p.kill()
+        except Exception:
+            pass
+    try:
+        p.wait(timeout=10)
+    except Exception:
+        pass
+
+
 def sh(cmd, timeout, cwd=None, stdout_path=None):
     t0 = time.time()
+    f = open(stdout_path, 'w') if stdout_path else None
+    p = subprocess.Popen(cmd, stdout=f if f else subprocess.PIPE,
+                         stderr=subprocess.PIPE if f else subprocess.STDOUT,
+                         cwd=cwd, preexec_fn=_limits, text=True, start_new_session=True)
     try:
-        if stdout_path:
-            with open(stdout_path, 'w') as f:
-                p = subprocess.run(cmd, stdout=f, stderr=subprocess.PIPE, timeout=timeout,
-                                   cwd=cwd, preexec_fn=_limits, text=True)
-            out = ''
-        else:
-            p = subprocess.run(cmd, stdout=subprocess.PIPE, stderr=subprocess.STDOUT,
-                               timeout=timeout, cwd=cwd, preexec_fn=_limits, text=True)
-            out = p.stdout
-        return p.returncode, out if not stdout_path else (p.stderr or ''), time.time() - t0
+        out, err = p.communicate(timeout=timeout)
     except subprocess.TimeoutExpired:
+        kill_group(p)
+        if f:
+            f.close()
         return 'timeout', '', time.time() - t0
+    if f:
+        f.close()
+        return p.returncode, err or '', time.time() - t0
+    return p.returncode, out, time.time() - t0
 
 
 class UnitResult:
@@ -192,7 +211,7 @@ def portfolio(runs, outdir, timeout):
     for nm, cmd in runs:
         jp = os.path.join(outdir, 'cbmc-%s.json' % nm)
         f = open(jp, 'w')
-        p = subprocess.Popen(cmd, stdout=f, stderr=subprocess.DEVNULL, preexec_fn=_limits)
+        p = subprocess.Popen(cmd, stdout=f, stderr=subprocess.DEVNULL, preexec_fn=_limits, start_new_session=True)
         procs.append([nm, p, jp, f])
     t0 = time.time()
     done = {}
@@ -228,8 +247,7 @@ def portfolio(runs, outdir, timeout):
     finally:
         for nm, p, jp, f in procs:
             if p.poll() is None:
-                p.kill()
-                p.wait()
+                kill_group(p)
             try:
                 f.close()
             except Exception:
